@@ -671,7 +671,7 @@ def run(ctx):
         "and operand order, comparison direction, named constants, numeric constants by value, element type of the operand a constant "
         "is attached to, every name bound/declared once and before use, every reference resolving to the identical graph node. "
         "Non-trivial = graph with >=1 named binding that is referenced and >=1 constant; distinct by case. A coverage-guided campaign "
-        "(atheris/libFuzzer over the byte string Hypothesis decodes into a case of the same strategies, same oracle) follows; counted under fuzz/*."
+        "(atheris/libFuzzer over the byte string Hypothesis decodes into a case of the same strategies, same oracle) follows; counted under fuzz/*. A per-kind probe renders every operator of the tables once per operand sort and position (kind-probe/*)."
     )
     ctx.assumptions = [
         "operator tables transcribed from the StableHLO / CHLO / XLA client documentation; kinds without a certain counterpart (positive, asin_acos_kernel, log2/log10 for XLA, bitwise ops) are walked structurally but their operator name is not asserted (counted)",
